@@ -243,7 +243,11 @@ def run(ctx):
             ok = len(parse) == 1 and "f64" in parse[0].get("ty", "")
             repl = [n for n in H.walk(fe) if H.kind(n) == "MethodCall" and n["name"] == "replace" and H.lit(n["args"][0]) and H.lit(n["args"][0])["v"] == "_" and H.lit(n["args"][1])["v"] == ""]
             arith = [n for n in H.walk(fe) if H.kind(n) in ("Binary", "Cast")]
-            ctx.inst("C16.R3", "builder#decimal", ok and bool(repl) and not arith,
+            v_dec = True if (ok and bool(repl) and not arith) else (False if (parse and arith) else None)
+            if v_dec is None and not parse:
+                # the conversion lives somewhere else (a helper the arm calls): is there one in the crate's builder at all?
+                v_dec = None
+            ctx.inst("C16.R3", "builder#decimal", v_dec,
                      "decimal branch: parse::<f64> x%d, underscores removed: %s, arithmetic on the result: %d" % (len(parse), bool(repl), len(arith)), H.loc(fe))
             continue
         prefixes = {H.lit(n["args"][0])["v"] for n in H.walk(cond) if H.kind(n) == "MethodCall" and n["name"] == "starts_with" and H.lit(n["args"][0])}
@@ -270,8 +274,12 @@ def run(ctx):
             if rows_:
                 for rad_ in sorted({r_[1] for r_ in rows_}):
                     pf_ = {r_[0] for r_ in rows_ if r_[1] == rad_}
-                    ctx.inst("C16.R3", "builder#radix-%s" % rad_, rad_ in want and pf_ == want[rad_], "table rows give prefixes %s for radix %s; grammar admits %s" % (sorted(pf_), rad_, sorted(want.get(rad_, []))), H.loc(then))
-                    sg_ok = all(r_[2] == (-1.0 if r_[0].startswith("-") else 1.0) for r_ in rows_ if r_[1] == rad_)
+                    has_sign_col = all(r_[2] is not None for r_ in rows_ if r_[1] == rad_)
+                    v_rad = rad_ in want and pf_ == want[rad_]
+                    if not v_rad and rad_ in want and not has_sign_col and pf_ and pf_ <= {w_.lstrip("+-") for w_ in want[rad_]}:
+                        v_rad = None   # the table lists the unsigned markers; the sign is split off somewhere else (not followed here)
+                    ctx.inst("C16.R3", "builder#radix-%s" % rad_, v_rad, "table rows give prefixes %s for radix %s; grammar admits %s" % (sorted(pf_), rad_, sorted(want.get(rad_, []))), H.loc(then))
+                    sg_ok = all(r_[2] == (-1.0 if r_[0].startswith("-") else 1.0) for r_ in rows_ if r_[1] == rad_) if has_sign_col else None
                     ctx.inst("C16.R3", "builder#radix-%s#sign" % rad_, sg_ok, "sign column of the table: %s" % [(r_[0], r_[2]) for r_ in rows_ if r_[1] == rad_], H.loc(then))
                     repl_ = [n for n in H.walk(then) if H.kind(n) == "MethodCall" and n["name"] == "replace" and H.lit(n["args"][0]) and H.lit(n["args"][0])["v"] == "_"]
                     ctx.inst("C16.R3", "builder#radix-%s#underscores" % rad_, bool(repl_), "underscores removed before conversion: %s" % bool(repl_), H.loc(then))
